@@ -3,6 +3,7 @@
 EXTENDS Naturals, Sequences, FiniteSets, TLC, Json
 CONSTANTS LookupOrders, SortFlags, Reqs, Shapes, MaxRep,
           QCacheSet,   \* query cache lifetimes (0 = off)
+          SortLists,   \* sortlist strings ("" = none): some of the answer addresses match entries, others none
           Repeat       \* 1: the same lookup may be issued a second time at any point (answered from the cache where possible)
 VARIABLES cfg, h, nrep, again
 gvars == <<cfg, h, nrep, again>>
@@ -40,8 +41,9 @@ Rep(s, rq) ==
     [] s = "nodata" -> b @@ [kind |-> "nodata"]
     [] s = "nx" -> b @@ [kind |-> "nx"]
     [] s = "five" -> b @@ [kind |-> "ok", n |-> 5, ttl |-> 10]
-GInit == /\ \E lo \in LookupOrders, sf \in SortFlags, qc \in QCacheSet :
+GInit == /\ \E lo \in LookupOrders, sf \in SortFlags, qc \in QCacheSet, sl \in SortLists :
               cfg = [nsrv |-> 1, tries |-> 1, timeout |-> 1000, seed |-> 1, lookups |-> lo, hostsfile |-> 1, gaiflags |-> sf, qcache |-> qc]
+                    @@ (IF sl = "" THEN <<>> ELSE [sortlist |-> sl])
          /\ \E r \in Reqs : h = <<ReqStep(r)>>
          /\ nrep = 0 /\ again = FALSE
 GNext == \/ /\ nrep < MaxRep /\ \E s \in Shapes : h' = Append(h, Rep(s, h[1])) /\ nrep' = nrep + 1 /\ UNCHANGED <<cfg, again>>
